@@ -1161,7 +1161,18 @@ class SymExec:
             if isinstance(v, ast.Constant):
                 parts.append(Const(v.value))
             else:
-                parts.append(Fmt(self.eval(v.value, st, func, depth), norm(v.format_spec) if v.format_spec else "", v.conversion))
+                val = self.eval(v.value, st, func, depth)
+                if isinstance(val, Const) and isinstance(val.v, str) and not v.format_spec and v.conversion == -1:
+                    parts.append(Const(val.v))  # {NAME} of a constant string is that string
+                else:
+                    parts.append(Fmt(val, norm(v.format_spec) if v.format_spec else "", v.conversion))
+        merged = []
+        for p_ in parts:
+            if merged and isinstance(p_, Const) and isinstance(merged[-1], Const) and isinstance(p_.v, str) and isinstance(merged[-1].v, str):
+                merged[-1] = Const(merged[-1].v + p_.v)
+            else:
+                merged.append(p_)
+        parts = merged
         if all(isinstance(p, Const) for p in parts):
             return Const("".join(p.v for p in parts))
         return Tup(parts, "fstr")
